@@ -60,7 +60,7 @@ def run(tier, seed):
     rng = random.Random(seed)
     states = trans = 0
     v.cov["mc_configs"] = []
-    for c in ("start", "wrap", "quick", "refs"):
+    for c in ("start", "wrap", "quick", "refs", "creations"):
         if c == "start" and not thorough:
             continue
         r = lib.tlc_expect_ok("PidAlloc.tla", f"mc/PidAlloc_{c}.cfg", PID, f"mc_{c}")
@@ -68,6 +68,8 @@ def run(tier, seed):
         trans += r.generated
         v.cov["mc_configs"].append({"cfg": f"PidAlloc_{c}", "distinct": r.distinct, "generated": r.generated, "result": "UniqueWhileBounded, CreationInForce, RefUnique, SerialAdvancesOnWrap hold under every interleaving"})
     lib.tlc_expect_violation("PidAlloc.tla", "mc/PidAlloc_nolock.cfg", PID, "mc_nolock", "UniqueWhileBounded")
+    lib.tlc_expect_violation("PidAlloc.tla", "mc/PidAlloc_rewind.cfg", PID, "mc_rewind", "UniqueWhileBounded")
+    v.cov["mc_configs"].append({"cfg": "PidAlloc_rewind", "result": "counterexample to Unique when set_creation restarts the numbering and a creation value recurs (as expected)"})
     if thorough:
         apalache_inductive(v)
     adv = adversarial_schedules(v)
@@ -104,6 +106,10 @@ def run(tier, seed):
     # their words exactly the counter values (PidAlloc!RefWordsAreCounter)
     for th in (1, 4):
         scen.append({"kind": "bulk_refs", "threads": th, "total": 300000, "start_ctr": 5})
+    # the creation changes between bursts of allocations and comes back to values that were in force before (PidAlloc!SetCreation)
+    for i, (th, sid) in enumerate(((1, 1), (2, 5), (3, MAXID - 2), (1, MAXID))):
+        scen.append({"kind": "creations", "threads": th, "allocs": 2, "start_id": sid, "start_serial": 0, "creation": 1, "schedule": [], "seed": seed + i,
+                     "phases": [{"creation": 2, "allocs": 2}, {"creation": 1, "allocs": 2}, {"creation": 1, "allocs": 1}, {"creation": 3, "allocs": 1}, {"creation": 2, "allocs": 2}]})
     # sequential allocations across several wraps
     scen.append({"kind": "sequential", "threads": 1, "allocs": 40, "start_id": MAXID - 3, "start_serial": 2 ** 32 - 2, "creation": 9, "schedule": []})
     sp = os.path.join(lib.outdir(PID), "scenarios.ndjson")
